@@ -160,6 +160,28 @@ def gen_subquery(rng):
     return {"world": world, "vars": vars_, "derived": derived, "cond": cond, "select": sel, "mode": mode}
 
 
+def gen_scalar_subquery(rng):
+    """a nested sub-query over a plain scalar variable (0 / False / 0.0 are falsy values like any other) whose value
+    is used directly as a comparator operand of the outer query"""
+    world = G.gen_world(rng)
+    vars_ = gen_vars(rng, world, 1, allow_empty=False)
+    if rng.random() < 0.5:
+        inner = {"name": "w", "type": "int", "vals": rng.sample(range(0, 5), rng.randint(1, 4)), "dom": [],
+                 "kind": rng.choice(["list", "gen"])}
+    else:
+        inner = {"name": "w", "type": "obj", "vals": rng.sample([-2, -1, 0, 1, 2, 1.0, True, 0.0, False, 3], rng.randint(1, 5)),
+                 "dom": [], "kind": rng.choice(["list", "gen"])}
+    icond = ["cmp", rng.choice(CMP), ["var", "w"], ["lit", rng.randint(0, 3)]] if rng.random() < 0.7 else None
+    derived = [{"name": "s", "kind": "sub", "var": inner, "cond": icond}]
+    xa = ["attr", ["var", "x"], rng.choice("ab")]
+    cond = ["cmp", rng.choice(CMP), xa, ["var", "s"]] if rng.random() < 0.7 else ["cmp", rng.choice(CMP), ["var", "s"], xa]
+    if rng.random() < 0.3:
+        cond = ["and", cond, ["cmp", rng.choice(CMP), ["attr", ["var", "x"], rng.choice("ab")], ["lit", rng.randint(0, 2)]]]
+    sel = rng.choice([[["var", "x"]], [["var", "s"]], [["var", "x"], ["var", "s"]]])
+    mode = "entity" if len(sel) == 1 and rng.random() < 0.5 else "set_of"
+    return {"world": world, "vars": vars_, "derived": derived, "cond": cond, "select": sel, "mode": mode}
+
+
 def gen_exists(rng, form=None, falsy_lit=False):
     lo = 0 if falsy_lit else 1
     world = G.gen_world(rng)
